@@ -701,6 +701,8 @@ impl DtlsInner {
                                 && matches!(*self.state.lock(), DtlsState::Connected(..))
                                 && let Some(records) = &ctx.last_flight_records
                             {
+                                #[cfg(rustrtc_verif)]
+                                self.vflight(records, true, "dupFIN");
                                 if let Err(e) = self.conn.send_dtls_record_batch(records).await {
                                     debug!("Failed to resend final flight: {}", e);
                                 }
